@@ -232,6 +232,11 @@ def run {α : Type} : Prog α → World → α × World
   | .ret a, w => (a, w)
   | .op e k, w => let rw := respond w e; run (k rw.1) rw.2
 
+/-- sequential run that also returns the primitives issued, in order -/
+def runLog {α : Type} : Prog α → World → List Ev → α × World × List Ev
+  | .ret a, w, acc => (a, w, acc.reverse)
+  | .op e k, w, acc => let rw := respond w e; runLog (k rw.1) rw.2 (e :: acc)
+
 def Ev.isMutating : Ev → Bool
   | .eff _ => true
   | _ => false
